@@ -109,8 +109,12 @@ def gen_case(rng: random.Random, small=False) -> dict:
                     cur = rng.choice(nb); sol.append(cur)
             case["solution"] = [list(x) for x in sol]
             case["start"], case["end"] = list(sol[0]), list(sol[-1])
+    if rng.random() < 0.25:
+        # stored the way a reloaded minimal-format dataset stores coordinates (int8), drawn at a scale where coordinate * unit_length > 127
+        case["path_dtype"] = "int8"; case["ul"] = rng.choice([14, 20, 33, 40])
     if rng.random() < 0.5:
         case["values"], case["values_mode"] = _gen_values(rng, rows, cols)
+        case["prior_plot"] = rng.random() < 0.3
         case["cmap"] = rng.choice(["Blues", "Blues", "Reds", "viridis"])
         case["hide_colorbar"] = rng.random() < 0.5
     if kind == "plain" and rng.random() < 0.5:
@@ -142,7 +146,7 @@ def build_maze(case):
     cl = np.array(case["cl"], dtype=bool)
     if case["kind"] == "plain": return LatticeMaze(connection_list=cl)
     if case["kind"] == "targeted": return TargetedLatticeMaze(connection_list=cl, start_pos=tuple(case["start"]), end_pos=tuple(case["end"]))
-    return SolvedMaze(connection_list=cl, solution=np.array(case["solution"]))
+    return SolvedMaze(connection_list=cl, solution=np.array(case["solution"], dtype=case.get("path_dtype", None)))
 
 
 def _values(case):
@@ -159,6 +163,18 @@ def observe(case) -> dict:
     mp = MazePlot(maze, unit_length=case["ul"])
     obs["ctor_path"] = None if mp.true_path is None else np.array(mp.true_path.path).tolist()
     vals = _values(case)
+    if vals is not None and case.get("prior_plot"):
+        # the SAME plot object was given other cell values and plotted before: what counts is what it is given last
+        import matplotlib.pyplot as plt0
+        try:
+            mp.add_node_values(vals[::-1, ::-1] + 1.0, color_map=case["cmap"], hide_colorbar=True)
+            with warnings.catch_warnings():
+                warnings.simplefilter("ignore")
+                mp.plot(plain=case.get("plain_flag", False))
+        except Exception:
+            pass
+        finally:
+            plt0.close("all")
     if vals is not None:
         mp.add_node_values(vals, color_map=case["cmap"], hide_colorbar=case.get("hide_colorbar", False))
     if case["added"] is not None:
@@ -166,7 +182,7 @@ def observe(case) -> dict:
     for p in case["predicted"]:
         pts = [tuple(x) for x in p["path"]]
         if p["form"] == "list": mp.add_predicted_path(pts)
-        elif p["form"] == "array": mp.add_predicted_path(np.array(pts).reshape(len(pts), 2))
+        elif p["form"] == "array": mp.add_predicted_path(np.array(pts, dtype=case.get("path_dtype", None)).reshape(len(pts), 2))
         elif p["form"] == "styled_line": mp.add_predicted_path(StyledPath(path=np.array(pts).reshape(len(pts), 2), fmt=":", color="blue", quiver_kwargs=None))
         else: mp.add_predicted_path(StyledPath(path=np.array(pts).reshape(len(pts), 2), color="green", quiver_kwargs={"width": 0.01}))
     try:
